@@ -34,6 +34,27 @@ class Proc:
         return "<%s pid=%d %s>" % (self.role, self.pid, self.state)
 
 
+def _proc_stat(pid):
+    try:
+        with open("/proc/%d/stat" % pid) as f:
+            return f.read().rsplit(")", 1)[1].split()
+    except (OSError, IndexError):
+        return None
+
+
+def _proc_state(pid):
+    f = _proc_stat(pid)
+    return f[0] if f else "?"
+
+
+def _cpu_seconds(pid):
+    f = _proc_stat(pid)
+    try:
+        return (int(f[11]) + int(f[12])) / float(os.sysconf("SC_CLK_TCK")) if f else 0.0
+    except (ValueError, IndexError):
+        return 0.0
+
+
 class Controller:
     def __init__(self, tree, workdir, clock0=100000000, conc=(10, 20), announce=(120, 120), policy=None, chooser=None):
         self.tree, self.work = tree, workdir
@@ -302,9 +323,18 @@ class Controller:
     def _settle(self):
         """wait until no process is in state run"""
         t0 = time.time()
+        cpu0 = {p.pid: _cpu_seconds(p.pid) for p in self.procs.values() if p.state == "run"}
         while any(p.state == "run" for p in self.procs.values()) or self.pending or self.expect:
             if not self._pump(1.0):
-                if time.time() - t0 > self.timeout:
+                el = time.time() - t0
+                if el > self.timeout:
+                    # stuck or spinning - or merely starved of the processor by other work on the machine?  A process that is
+                    # runnable and has had less than a third of the elapsed time on a processor gets more time (up to 8 x)
+                    running = [p for p in self.procs.values() if p.state == "run"]
+                    starved = [p for p in running if _proc_state(p.pid) == "R" and _cpu_seconds(p.pid) - cpu0.get(p.pid, 0.0) < el / 3]
+                    overloaded = os.getloadavg()[0] > 2 * (os.cpu_count() or 1)
+                    if (starved or overloaded) and el < 8 * self.timeout:
+                        continue
                     raise Infra("gate: process did not reach a gate point: %s expect=%s" % ([p for p in self.procs.values() if p.state == "run"], self.expect))
             else:
                 t0 = time.time()
